@@ -171,7 +171,9 @@ func errnoBytes(errno int, extra []byte) []byte {
 	return append(b, extra...)
 }
 
-var errnos = []int{0, 0, 0, 0, 0, 1, 2, 11, 13, 17, 22, 4095, 105, -3}
+// errno values of ACKs: success, the usual refusals, and the ones Go's errors.Is treats as equivalent to another
+// (ENOTEMPTY ~ EEXIST via os.ErrExist, EACCES ~ EPERM, ETIMEDOUT / EAGAIN via Timeout, EINTR / EMFILE / ENFILE via Temporary)
+var errnos = []int{0, 0, 0, 0, 0, 0, 1, 2, 11, 13, 17, 22, 4095, 105, -3, 39, 110, 4, 24, 23, 16, 12, 28, 95, 133}
 
 func rnd(r *sx.Rng, n int) []byte {
 	b := make([]byte, n)
@@ -224,6 +226,9 @@ func runCase(seed uint64, idx int) (string, map[string]interface{}, string, bool
 	ack := func(q uint32) {
 		noise(r, &script, hostile)
 		e := sx.Pick(r, errnos)
+		if r.Chance(1, 10) {
+			e = 1 + r.Intn(133) // any errno
+		}
 		c := r.Intn(100)
 		switch {
 		case hostile && c < 8:
